@@ -14,18 +14,52 @@ fn hv(h: &HeaderView) -> String {
     format!("({},{},{},{},{})", h.timestamp, if h.deleted { 1 } else { 0 }, h.meta_size, h.data_size, h.blob_offset)
 }
 
-fn key_of<const N: usize>(hex: &str) -> ArrayKey<N> {
-    ArrayKey::<N>::from(hex_decode(hex))
+/// A key whose order is NOT the order of its bytes: N bytes compared as a little-endian number (last byte first).
+/// The crate's `Key` trait lets the user define the order; the index must use it everywhere (C09).
+#[derive(Debug, Clone, PartialEq, Eq)]
+pub struct LeKey<const N: usize>([u8; N]);
+#[derive(Debug, PartialEq, Eq)]
+pub struct LeRef<'a>(&'a [u8]);
+fn le_cmp(a: &[u8], b: &[u8]) -> std::cmp::Ordering {
+    a.iter().rev().cmp(b.iter().rev())
+}
+impl<const N: usize> Default for LeKey<N> { fn default() -> Self { Self([0; N]) } }
+impl<const N: usize> AsRef<[u8]> for LeKey<N> { fn as_ref(&self) -> &[u8] { &self.0 } }
+impl<const N: usize> AsRef<LeKey<N>> for LeKey<N> { fn as_ref(&self) -> &LeKey<N> { self } }
+impl<const N: usize> From<Vec<u8>> for LeKey<N> { fn from(v: Vec<u8>) -> Self { Self(v.try_into().expect("size mismatch")) } }
+impl<const N: usize> From<&[u8]> for LeKey<N> { fn from(v: &[u8]) -> Self { Self(v.try_into().expect("size mismatch")) } }
+impl<const N: usize> PartialOrd for LeKey<N> { fn partial_cmp(&self, o: &Self) -> Option<std::cmp::Ordering> { Some(self.cmp(o)) } }
+impl<const N: usize> Ord for LeKey<N> { fn cmp(&self, o: &Self) -> std::cmp::Ordering { le_cmp(&self.0, &o.0) } }
+impl<'a> From<&'a [u8]> for LeRef<'a> { fn from(v: &'a [u8]) -> Self { Self(v) } }
+impl<'a> PartialOrd for LeRef<'a> { fn partial_cmp(&self, o: &Self) -> Option<std::cmp::Ordering> { Some(self.cmp(o)) } }
+impl<'a> Ord for LeRef<'a> { fn cmp(&self, o: &Self) -> std::cmp::Ordering { le_cmp(self.0, o.0) } }
+impl<'a> pearl::RefKey<'a> for LeRef<'a> {}
+impl<'a, const N: usize> pearl::Key<'a> for LeKey<N> {
+    const LEN: u16 = N as u16;
+    const MEM_SIZE: usize = N;
+    type Ref = LeRef<'a>;
 }
 
 pub async fn cmd_idx<const N: usize>(st: &mut St<N>, ctx: &mut Ctx, args: &[&str]) {
+    if st.cfg.key_le {
+        cmd_idx_k::<N, LeKey<N>>(st, ctx, args).await
+    } else {
+        cmd_idx_k::<N, ArrayKey<N>>(st, ctx, args).await
+    }
+}
+
+async fn cmd_idx_k<const N: usize, KT>(st: &mut St<N>, ctx: &mut Ctx, args: &[&str])
+where
+    for<'a> KT: pearl::Key<'a> + 'static,
+{
+    let key_of = |hex: &str| -> KT { KT::from(hex_decode(hex)) };
     let pkey = |id: &str| format!("{}#{}", st.dir.display(), id);
     macro_rules! take {
         ($id:expr) => {{
             let mut g = PROBES.lock().unwrap();
             let m = g.get_or_insert_with(HashMap::new);
             match m.remove(&pkey($id)) {
-                Some(b) => match b.downcast::<IndexProbe<ArrayKey<N>>>() {
+                Some(b) => match b.downcast::<IndexProbe<KT>>() {
                     Ok(p) => *p,
                     Err(_) => {
                         ctx.emit("HARNESS-ERROR probe type");
@@ -48,13 +82,13 @@ pub async fn cmd_idx<const N: usize>(st: &mut St<N>, ctx: &mut Ctx, args: &[&str
     match args {
         ["new", id, bloom] => {
             let bc = if *bloom == "none" { None } else { Some(crate::bloom_cmds::config_from_bytes(&hex_decode(bloom))) };
-            let p: IndexProbe<ArrayKey<N>> = IndexProbe::new(&st.dir, id.parse().unwrap(), bc);
+            let p: IndexProbe<KT> = IndexProbe::new(&st.dir, id.parse().unwrap(), bc);
             put!(id, p);
             ctx.emit("idx new");
         }
         ["push", id, key, ts, del, msize, dsize, off] => {
             let p = take!(id);
-            let r = p.push(&key_of::<N>(key), ts.parse().unwrap(), *del == "1", msize.parse().unwrap(), dsize.parse().unwrap(), off.parse().unwrap());
+            let r = p.push(&key_of(key), ts.parse().unwrap(), *del == "1", msize.parse().unwrap(), dsize.parse().unwrap(), off.parse().unwrap());
             put!(id, p);
             ctx.emit(match r { Ok(()) => "idx push ok".to_string(), Err(e) => format!("idx push Err {}", err_class(&e)) });
         }
@@ -72,14 +106,14 @@ pub async fn cmd_idx<const N: usize>(st: &mut St<N>, ctx: &mut Ctx, args: &[&str
         }
         ["open", id, bloom, bsize] => {
             let bc = if *bloom == "none" { None } else { Some(crate::bloom_cmds::config_from_bytes(&hex_decode(bloom))) };
-            match IndexProbe::<ArrayKey<N>>::open(&st.dir, id.parse().unwrap(), bc, bsize.parse().unwrap()).await {
+            match IndexProbe::<KT>::open(&st.dir, id.parse().unwrap(), bc, bsize.parse().unwrap()).await {
                 Ok(p) => { put!(id, p); ctx.emit("idx open ok"); }
                 Err(e) => ctx.emit(format!("idx open Err {}", err_class(&e))),
             }
         }
         ["latest", id, key] => {
             let p = take!(id);
-            let r = p.get_latest(&key_of::<N>(key)).await;
+            let r = p.get_latest(&key_of(key)).await;
             put!(id, p);
             ctx.emit(match r {
                 Ok(ReadResult::Found(h)) => format!("idx latest Found {}", hv(&h)),
@@ -90,7 +124,7 @@ pub async fn cmd_idx<const N: usize>(st: &mut St<N>, ctx: &mut Ctx, args: &[&str
         }
         ["all", id, key] => {
             let p = take!(id);
-            let r = p.get_all_with_deletion_marker(&key_of::<N>(key)).await;
+            let r = p.get_all_with_deletion_marker(&key_of(key)).await;
             put!(id, p);
             ctx.emit(match r {
                 Ok(v) => format!("idx all [{}]", v.iter().map(hv).collect::<Vec<_>>().join(" ")),
@@ -106,7 +140,7 @@ pub async fn cmd_idx<const N: usize>(st: &mut St<N>, ctx: &mut Ctx, args: &[&str
         }
         ["filter", id, key] => {
             let p = take!(id);
-            let r = p.check_filter(&key_of::<N>(key)).await;
+            let r = p.check_filter(&key_of(key)).await;
             put!(id, p);
             ctx.emit(format!("idx filter {}", match r { pearl::FilterResult::NeedAdditionalCheck => "maybe", pearl::FilterResult::NotContains => "no" }));
         }
